@@ -31,6 +31,9 @@ func e2eDeadline(carrier string, n int) time.Duration {
 	if strings.HasPrefix(carrier, "dns") {
 		d = 60*time.Second + time.Duration(n/200)*time.Second
 	}
+	if c01DeadlineCap > 0 && d > c01DeadlineCap {
+		d = c01DeadlineCap
+	}
 	return d
 }
 
@@ -148,6 +151,9 @@ func runBytes(carrier, mode string, n, part int, seed uint64) (string, string) {
 		return "fail:rig", err.Error()
 	}
 	defer rig.Close()
+	if c01RigHook != nil {
+		c01RigHook(rig)
+	}
 	if slow {
 		// a slow carrier (4 KiB/s each way, the speed of a DNS tunnel or a bad mobile link): one full multiplexer frame
 		// takes eight seconds to cross it
